@@ -570,19 +570,65 @@ def linkentry_profile(rng, rec):
     rec["ops"] = seq + rec["ops"]
 
 
+def mass_eviction_pass(rng, rec):
+    """(round 20, own PRNG stream; only in runs of the "wide" profile) a cache holding 75-95 small entries that has to
+    evict nearly all of them AT ONCE: one request for an object about as large as the whole cache, or a start-up
+    eviction after the configured size was edited down.  Anything that bounds the work of one eviction pass (a candidate
+    list capped at N, seeded change s193) only shows there."""
+    knobs = rec["knobs"]
+    if not knobs.get("wide") or rng.random() < 0.4:
+        return
+    keys, rs, ops = knobs["keys"], knobs["res_sizes"], rec["ops"]
+    for j in range(max(0, rng.randint(75, 95) - len(keys))):
+        rs["m%d" % j] = rng.choice([100, 150, 200, 300])
+        keys.append({"scheme": "sim", "res": "m%d" % j, "comment": "", "pp": False, "val": False})
+    small = list(range(len(keys)))
+    knobs["max_bytes"] = sum(rs[k["res"]] + (4 if k["pp"] else 0) for k in keys) + rng.randint(0, 500)
+    rs["mbig"] = max(1, knobs["max_bytes"] - rng.choice([0, 1, 100, 350]))
+    keys.append({"scheme": "sim", "res": "mbig", "comment": "", "pp": False, "val": False})
+    nid = max([o["id"] for o in ops if isinstance(o["id"], int)] + [0]) + 1
+    rng.shuffle(small)
+    cut = rng.randint(30, 50)
+    seq = [{"op": "GET", "keys": small[:cut], "dt": 10**9}, {"op": "GET", "keys": small[cut:], "dt": 10**9}]
+    if rng.random() < 0.7:
+        seq.append({"op": "GET", "keys": [len(keys) - 1], "dt": 10**9})
+    else:
+        seq.append({"op": "EDIT_CONFIG", "size": max(1, int(knobs["max_bytes"] * rng.choice([0.02, 0.1]))), "dt": 1000})
+        seq.append({"op": "REOPEN", "size": None, "evict": True, "dt": 1000})
+    seq.append({"op": "GET", "keys": rng.sample(small, 2), "dt": 1000})
+    for j, o in enumerate(seq):
+        o["id"] = nid + 800 + j
+    rec["ops"] = ops + seq
+    knobs["mass_eviction"] = True
+
+
+def second_fault_pass(rng, rec):
+    """(round 20, own PRNG stream) a second fault of another kind inside an operation that already has one: the
+    operating system refuses to DELETE a file of the key (EACCES from unlink) - the removal of an entry its validator
+    just rejected, the clean-up of a temporary after a failed attempt."""
+    out = []
+    for f in rec["faults"]:
+        if f.get("key") is None:
+            continue
+        p = 0.35 if f["kind"] in ("VALIDATE_FALSE", "VALIDATE_IOERROR") else 0.04
+        if rng.random() < p and not any(g["kind"] == "UNLINK_EACCES" and g["op"] == f["op"] for g in rec["faults"] + out):
+            out.append({"op": f["op"], "kind": "UNLINK_EACCES", "key": f["key"], "nth": 0})
+    rec["faults"] += out
+
+
 def directive_names_pass(rng, rec):
     """Several named directive functions and their management mid-session (round 20).  Drawn from its OWN stream after
     everything else, so that no other decision of any seed moves: (a) in a quarter of the runs the uris name two
-    different post-processors / validators ("pp"/"pp2", "v"/"v2") and the user registers them in either order, plus
+    different post-processors / validators ("pp"/"pp-v2.1", "v"/"v.strict-2": the first name is a prefix of the second) and the user registers them in either order, plus
     one nobody names; (b) in some runs the user swaps an implementation (remove + set under the same name) or registers
     / removes an extra function between two operations."""
     knobs, ops = rec["knobs"], rec["ops"]
     if rng.random() < 0.25:
         for kd in knobs["keys"]:
             if kd.get("pp") and rng.random() < 0.5:
-                kd["ppn"] = "pp2"
+                kd["ppn"] = "pp-v2.1"  # = sim.resources.PP2_NAME
             if rng.random() < 0.5:
-                kd["vn"] = "v2"  # (matters when the uri carries a validate directive, also a per-request one)
+                kd["vn"] = "v.strict-2"  # = sim.resources.V2_NAME; (matters when the uri carries a validate directive, also a per-request one)
         knobs["dir_order_rev"] = rng.random() < 0.5
     if rng.random() < 0.15 and not knobs.get("wide"):
         nid = max([o["id"] for o in ops if isinstance(o["id"], int)] + [0]) + 1
@@ -636,5 +682,8 @@ def generate(prop, seed, profile=None):
             rec["crash"] = gen_crash(rng, knobs, rec["ops"])
             if rng.random() < 0.3:
                 rec["crash2"] = gen_second_crash(rng, knobs, rec["ops"], rec["crash"])
+    mass_eviction_pass(random.Random(mix(seed, "mass-eviction", prop)), rec)
     directive_names_pass(random.Random(mix(seed, "directive-names", prop)), rec)
+    if prop == "C19":
+        second_fault_pass(random.Random(mix(seed, "second-faults", prop)), rec)
     return rec
